@@ -40,6 +40,7 @@ type Case struct {
 	Masks   [][]bool   `json:"masks"`
 	RType   string     `json:"rtype"`
 	NOrder  int        `json:"norder"`
+	Grid    bool       `json:"grid"` // place the vertices on a coarse grid (rings share latitudes / longitudes exactly)
 }
 
 type Run struct {
@@ -98,8 +99,12 @@ func place(c *Case, seed uint64, h uint64) *layout {
 		z ^= z >> 31
 		return float64(z>>11) / float64(uint64(1)<<53)
 	}
-	p := profiles[int(next()*float64(len(profiles)))%len(profiles)]
 	l := &layout{pt: map[int]orb.Point{}, sym: map[orb.Point]int{}, id: map[int]osm.NodeID{}}
+	if c.Grid {
+		placeGrid(c, l, next)
+		return l
+	}
+	p := profiles[int(next()*float64(len(profiles)))%len(profiles)]
 
 	// vertex angles: counter-clockwise on a circle (convex), slightly irregular
 	ang := make([][]float64, len(c.G)+1)
@@ -170,6 +175,129 @@ func place(c *Case, seed uint64, h uint64) *layout {
 		}
 	}
 	return l
+}
+
+// ---- grid layout ----
+// Every vertex lies on an integer grid (unit 1/8 degree). Outers are star-shaped rings with their vertices on 24
+// directions at distance 40 around centres 120 units apart on one row (east / west) or one column (north / south);
+// holes have their vertices on 12 directions at distance 10 / 5 / 4 around integer centres near the centre of their
+// outer. One vertex of every ring lies on an axis direction, so hole vertices share their latitude (row) or their
+// longitude (column) exactly with vertices of the other outers - vertices that are no north/south extrema.
+// The layout checks its own contract with exact integer arithmetic: rings listed counter-clockwise around their
+// centre, holes strictly inside their own outer and strictly outside the others, outers in disjoint boxes.
+type ipt struct{ x, y int64 }
+
+func placeGrid(c *Case, l *layout, next func() float64) {
+	const ro = 40
+	dirs := [][2]int64{{1, 0}, {-1, 0}, {1, 0}, {-1, 0}, {0, 1}, {0, -1}}
+	d := dirs[int(next()*6)%6]
+	centre := make([]ipt, len(c.G)+1)
+	rings := make([][]ipt, len(c.G)+1)
+	spoke := func(ctr ipt, rad float64, idx, of int) ipt {
+		th := 2 * math.Pi * float64(idx) / float64(of)
+		return ipt{ctr.x + int64(math.Round(rad*math.Cos(th))), ctr.y + int64(math.Round(rad*math.Sin(th)))}
+	}
+	k := int64(0)
+	for r := 1; r <= len(c.G); r++ {
+		if c.G[r-1].Parent != 0 {
+			continue
+		}
+		n := c.G[r-1].N
+		if n > 24 {
+			vio.Must(fmt.Errorf("outer with %d vertices", n), "grid layout")
+		}
+		centre[r] = ipt{k * 120 * d[0], k * 120 * d[1]}
+		k++
+		off := 6 * (int(next()*4) % 4)
+		for i := 0; i < n; i++ {
+			rings[r] = append(rings[r], spoke(centre[r], ro, (off+i*24/n)%24, 24))
+		}
+	}
+	for X := 1; X <= len(c.G); X++ {
+		var hs []int
+		for r := 1; r <= len(c.G); r++ {
+			if c.G[r-1].Parent == X {
+				hs = append(hs, r)
+			}
+		}
+		var offs []ipt
+		rho := 10.0
+		switch len(hs) {
+		case 0, 1:
+			offs = []ipt{{0, 0}}
+		case 2:
+			rho = 5
+			if next() < 0.5 {
+				offs = []ipt{{7, 0}, {-7, 0}}
+			} else {
+				offs = []ipt{{0, 7}, {0, -7}}
+			}
+		case 3:
+			rho = 4
+			offs = []ipt{{0, 8}, {-7, -4}, {7, -4}}
+		default:
+			vio.Must(fmt.Errorf("%d holes in one outer", len(hs)), "grid layout")
+		}
+		for j, r := range hs {
+			n := c.G[r-1].N
+			if n > 12 {
+				vio.Must(fmt.Errorf("hole with %d vertices", n), "grid layout")
+			}
+			centre[r] = ipt{centre[X].x + offs[j].x, centre[X].y + offs[j].y}
+			off := 3 * (int(next()*4) % 4)
+			for i := 0; i < n; i++ {
+				rings[r] = append(rings[r], spoke(centre[r], rho, (off+i*12/n)%12, 12))
+			}
+		}
+	}
+
+	// the layout's own contract, exact
+	cross := func(o, a, b ipt) int64 { return (a.x-o.x)*(b.y-o.y) - (a.y-o.y)*(b.x-o.x) }
+	strictlyInside := func(ring []ipt, ctr ipt, p ipt) bool { // ring is star-shaped around ctr, listed counter-clockwise
+		for i := range ring {
+			a, b := ring[i], ring[(i+1)%len(ring)]
+			if cross(ctr, a, p) >= 0 && cross(ctr, p, b) > 0 { // p in the wedge a..b (half open)
+				return cross(a, b, p) > 0
+			}
+		}
+		return p == ctr
+	}
+	for r := 1; r <= len(c.G); r++ {
+		for i := range rings[r] {
+			if cross(centre[r], rings[r][i], rings[r][(i+1)%len(rings[r])]) <= 0 {
+				vio.Must(fmt.Errorf("ring %d is not counter-clockwise around its centre", r), "grid layout")
+			}
+		}
+		if X := c.G[r-1].Parent; X != 0 {
+			for _, p := range rings[r] {
+				if !strictlyInside(rings[X], centre[X], p) {
+					vio.Must(fmt.Errorf("hole %d not strictly inside outer %d", r, X), "grid layout")
+				}
+			}
+			for r2 := 1; r2 <= len(c.G); r2++ {
+				if r2 != r && c.G[r2-1].Parent == X { // holes of one outer: disjoint boxes
+					a, b := centre[r], centre[r2]
+					if (a.x-b.x)*(a.x-b.x)+(a.y-b.y)*(a.y-b.y) < 13*13 {
+						vio.Must(fmt.Errorf("holes %d and %d too close", r, r2), "grid layout")
+					}
+				}
+			}
+		}
+	}
+
+	const unit, lon0, lat0 = 0.125, 60.0625, 20.0625 // dyadic: every coordinate is exact, none is 0
+	for r := 1; r <= len(c.G); r++ {
+		for i, q := range rings[r] {
+			s := r*100 + i + 1
+			pt := orb.Point{lon0 + float64(q.x)*unit, lat0 + float64(q.y)*unit}
+			if _, dup := l.sym[pt]; dup {
+				vio.Must(fmt.Errorf("two symbols on one coordinate"), "grid layout")
+			}
+			l.pt[s] = pt
+			l.sym[pt] = s
+			l.id[s] = osm.NodeID(3000 + int64(s))
+		}
+	}
 }
 
 func (l *layout) ring(r orb.Ring) []int {
